@@ -319,3 +319,84 @@ def slice_names(fn, expr):
                 stmts.append(st)
                 work += [x.id for x in ast.walk(val) if isinstance(x, ast.Name)]
     return names, stmts
+
+
+def _bool_leaves(e, out):
+    if isinstance(e, ast.BoolOp):
+        for v in e.values:
+            _bool_leaves(v, out)
+    elif isinstance(e, ast.UnaryOp) and isinstance(e.op, ast.Not):
+        _bool_leaves(e.operand, out)
+    else:
+        out.append(e)
+    return out
+
+
+def _bool_eval(e, val):
+    if isinstance(e, ast.BoolOp):
+        vs = [_bool_eval(v, val) for v in e.values]
+        return all(vs) if isinstance(e.op, ast.And) else any(vs)
+    if isinstance(e, ast.UnaryOp) and isinstance(e.op, ast.Not):
+        return not _bool_eval(e.operand, val)
+    return val(e)
+
+
+def norm_leaf(l):
+    """(canonical leaf, negated): `b <= a` and `a >= b` are read as `not a < b` (total order; NaN operands are not modelled)"""
+    if isinstance(l, ast.Compare) and len(l.ops) == 1:
+        a, b, op = l.left, l.comparators[0], type(l.ops[0])
+        if op is ast.Gt:
+            return ast.Compare(left=b, ops=[ast.Lt()], comparators=[a]), False
+        if op is ast.LtE:
+            return ast.Compare(left=b, ops=[ast.Lt()], comparators=[a]), True
+        if op is ast.GtE:
+            return ast.Compare(left=a, ops=[ast.Lt()], comparators=[b]), True
+        if op is ast.NotEq:
+            return ast.Compare(left=a, ops=[ast.Eq()], comparators=[b]), True
+        if op is ast.IsNot:
+            return ast.Compare(left=a, ops=[ast.Is()], comparators=[b]), True
+    return l, False
+
+
+def subst_bool_locals(fn, expr, depth=3):
+    """replace Name leaves that are locals bound exactly once in fn (`resume = not (t < 0)`) by their defining expression"""
+    import copy
+    if depth == 0:
+        return expr
+
+    class R(ast.NodeTransformer):
+        def visit_Name(self, n):
+            if not isinstance(n.ctx, ast.Load):
+                return n
+            defs = [st for st in ast.walk(fn) if isinstance(st, ast.Assign) and len(st.targets) == 1 and isinstance(st.targets[0], ast.Name)
+                    and st.targets[0].id == n.id]
+            others = [x for x in ast.walk(fn) if isinstance(x, ast.Name) and x.id == n.id and isinstance(x.ctx, (ast.Store, ast.Del))]
+            params = [a.arg for a in fn.args.args + fn.args.kwonlyargs] if isinstance(fn, ast.FunctionDef) else []
+            if len(defs) == 1 and len(others) == 1 and n.id not in params and isinstance(defs[0].value, (ast.BoolOp, ast.UnaryOp, ast.Compare, ast.Name, ast.Constant)):
+                return subst_bool_locals(fn, copy.deepcopy(defs[0].value), depth - 1)
+            return n
+    return R().visit(copy.deepcopy(expr))
+
+
+def sat_atom_values(fn, stmt, atom_pattern, env=None):
+    """Truth values of the atom (a leaf condition matching `atom_pattern`) for which the If-conditions enclosing `stmt` in `fn` can all
+    hold, the other leaf conditions being free; once-bound Boolean locals are replaced by their definition.  None: stmt not found."""
+    import itertools
+    pc = path_condition(fn, stmt)
+    if pc is None:
+        return None
+    conds = [(subst_bool_locals(fn, t), pol) for t, pol in pc]
+    leaves = []
+    for t, _ in conds:
+        _bool_leaves(t, leaves)
+    is_atom = lambda l: match(atom_pattern, norm_leaf(l)[0], env) is not None      # noqa: E731
+    keys = sorted({ast.unparse(norm_leaf(l)[0]) for l in leaves if not is_atom(l)})
+    out = set()
+    for av in (False, True):
+        for combo in itertools.product([False, True], repeat=min(len(keys), 12)):
+            table = dict(zip(keys, combo))
+            val = lambda l: (av if is_atom(l) else table.get(ast.unparse(norm_leaf(l)[0]), False)) != norm_leaf(l)[1]      # noqa: E731
+            if all(_bool_eval(t, val) == pol for t, pol in conds):
+                out.add(av)
+                break
+    return out
